@@ -4,30 +4,33 @@ import OAuth2Model.Model.AuthUrl
 namespace Drv.AuthUrlOp
 open Proto AuthUrl
 
+/-- one builder call: `I` | `R h` | `P h h` | `D h` | `S h` | `M <n> h*` | `X h h` -/
+def op : P Op := do
+  let t ← tok
+  match t with
+  | "I" => pure .useImplicit
+  | "R" => do let v ← bytes; pure (.setResponseType v)
+  | "P" => do let c ← bytes; let m ← bytes; pure (.setPkce c m)
+  | "D" => do let r ← bytes; pure (.setRedirect r)
+  | "S" => do let x ← bytes; pure (.addScope x)
+  | "M" => do let xs ← list bytes; pure (.addScopes xs)
+  | "X" => do let k ← bytes; let v ← bytes; pure (.addExtra k v)
+  | _ => failure
+
+/-- the CALLS are transmitted, not a configuration computed by the harness: the model itself folds them
+(`AuthUrl.applyOps`, closed form proved in Props/C03Builder.lean) -/
 def parse : P (Cfg × Bytes × Bytes × Bytes × Nat) := do
   let endpoint ← bytes
   let id ← bytes
-  let rt ← nat
-  let custom ← optBytes
-  let ch ← optBytes
-  let meth ← optBytes
   let cr ← optBytes
-  let ovr ← optBytes
-  let scopes ← list bytes
-  let extras ← list pair
+  let ops ← list op
   let st ← bytes
   bar
   let url ← bytes
   let returned ← bytes
   let calls ← nat
   done
-  let respType := match rt, custom with
-    | 1, _ => RespType.implicit
-    | 2, some v => RespType.custom v
-    | _, _ => RespType.code
-  let pkce := match ch, meth with | some c, some m => some (c, m) | _, _ => none
-  pure ({ endpoint := endpoint, clientId := id, respType := respType, pkce := pkce, clientRedirect := cr,
-          overrideRedirect := ovr, scopes := scopes, extras := extras }, st, url, returned, calls)
+  pure (applyOps (initial endpoint id cr) ops, st, url, returned, calls)
 
 def tag (c : Cfg) (p : Parts) : String :=
   let q := match p.query with | none => "noquery" | some [] => "emptyquery" | some _ => "query"
